@@ -800,6 +800,21 @@ theorem src_kautocor_is_model (blk : List α) (order : Option Nat) (h : order = 
     ALV.Gen.C10.lpc_kautocor blk (order.map Int.ofNat) = kautocor blk order :=
   Src.src_kautocor_is_model blk order h
 
+/-- the closure `inner` of `lpc.kcovar` as written is the model `innerM`. -/
+theorem src_kcovar_inner_is_model (phi : List (List α)) (a b : List α) :
+    ALV.Gen.C10.lpc_kcovar_inner phi a b = innerM phi a b := Src.src_kcovar_inner_is_model phi a b
+
+/-- `lpc.kcovar` as written - `lag_matrix`, the initial `A`, `B`, `beta`, the `while True` loop with its three exits
+    (ZeroDivisionError of `/ beta[m - 1]` and of the `gamma` comprehension, ValueError of the stability test, the
+    return at `m >= order`), emitted as a recursion on a fuel of `order - m + 1` passes - is the model `kcovar`; the
+    two comparisons of the stability test are the emitted `lpc_kcovar_cmp0` (`k >= 1`) and `lpc_kcovar_cmp1`
+    (`k <= -1`).  Hypothesis: the lag table has at least 2 rows (order >= 1); below that the source raises the
+    IndexError of `phi[0][1]`, which is outside the expression language and which the model has by hand. -/
+theorem src_kcovar_is_model [LE α] [DecidableRel (α := α) (· ≤ ·)] (blk : List α) (order : Option Nat)
+    (h : ∀ phi, lagMatrix blk order = .ok phi → 2 ≤ phi.length) :
+    ALV.Gen.C10.lpc_kcovar ALV.Gen.C10.lpc_kcovar_cmp0 ALV.Gen.C10.lpc_kcovar_cmp1 blk (order.map Int.ofNat)
+      = kcovar blk order := Src.src_kcovar_is_model blk order h
+
 /-- the names registered by the `@lpc.strategy(...)` decorators, in source order, are the model's table. -/
 theorem src_strategy_names_is_model : ALV.Gen.C10.strategyNames = strategyNames.map (·.2) :=
   Src.src_strategy_names
@@ -807,6 +822,8 @@ theorem src_strategy_names_is_model : ALV.Gen.C10.strategyNames = strategyNames.
 /-- non-vacuity: the regenerated definitions run (docstring example of levinson_durbin) -/
 example : ALV.Gen.C10.levinson_durbin [(12 : Rat), 6, 0, -3] (some 3) = .ok ([1, -5/8, 1/4, 1/8], 63/8) := by
   decide +kernel
+example : ∀ phi, lagMatrix [(1 : Rat), 2, 4, 3, 1] (some 2) = .ok phi → 2 ≤ phi.length := by
+  intro phi h; simp [lagMatrix] at h; subst h; simp [lagTable]
 example : ALV.Gen.C10.acorr [(1 : Rat), 2, 3, 4, 3, 4, 2] none = [59, 52, 42, 30, 17, 8, 2] := by decide +kernel
 end source
 
